@@ -126,7 +126,8 @@ def text_matches_circuit(text, desc, vectors):
     outs = [p.wire for p in top.outPorts]
     in_names = [py4hw.rtl_generation.getPortName(p) for p in top.inPorts]
     out_names = [py4hw.rtl_generation.getPortName(p) for p in top.outPorts]
-    order = [w.name for w in ins]
+    sig_of = {id(w): s_ for s_, w in c.wire.items()}
+    order = [sig_of[id(w)] for w in ins]
     idx = {'i%d' % k: k for k in range(len(desc['inputs']))}
     seq = [[vec[idx[n]] & mask(desc['inputs'][idx[n]]['w']) for n in order] for vec in vectors]
     for w, v in zip(ins, seq[0]):
